@@ -76,19 +76,73 @@ def _cmp(target, inp, out, spec, extra=None):
     return False, w
 
 
+class Unresolved(Exception):
+    """The function a check exercises was not found (renamed / restructured) and there is no way round through the public API."""
+
+
+def _resolve(M, name, nparams=None, mentions=()):
+    """The function `name` of module M; when it is gone, the unique function of M with the same arity whose source mentions
+    the given fragments (a renamed helper); else None."""
+    import inspect
+    f = getattr(M, name, None)
+    if f is not None:
+        return f
+    cands = []
+    for _n, obj in vars(M).items():
+        if inspect.isfunction(obj) and obj.__module__ == M.__name__:
+            try:
+                src, k = inspect.getsource(obj), len(inspect.signature(obj).parameters)
+            except (OSError, TypeError, ValueError):
+                continue
+            if (nparams is None or k == nparams) and all(m in src for m in mentions):
+                cands.append(obj)
+    return cands[0] if len(cands) == 1 else None
+
+
+def _xml(node):
+    from xml.etree import ElementTree as ET
+    return '<?xml version="1.0" encoding="UTF-8"?>' + ET.tostring(to_et(node), encoding="unicode")
+
+
+def _full_text(modname, reader, data, ext):
+    M = _mod(modname)
+    return "\n".join(x.get_full_text() for x in getattr(M, reader)(data, path="doc." + ext))
+
+
+def docx_api(*body_children):
+    """get_full_text() of a document whose body consists of the given block elements (route through the public reader)."""
+    from replay import c02_docs
+    doc = N(TR.W + "document", N(TR.W + "body", *body_children))
+    return _full_text("ms_modern.docx_extractor", "read_docx", c02_docs.docx_from_document_xml(_xml(doc)), "docx")
+
+
+def odf_api(body_child, modname, reader, mimetype, ext):
+    from replay import c02_docs
+    doc = N(TR.q("office", "document-content"), N(TR.q("office", "body"), body_child))
+    return _full_text(modname, reader, c02_docs.odf_from_content_xml(_xml(doc), mimetype), ext)
+
+
+def html_source_of(n):
+    void = {"br", "hr", "img", "input", "meta", "link"}
+    inner = (n.text or "") + "".join(html_source_of(c) for c in n.children)
+    return (f"<{n.tag}>" + ("" if n.tag in void else inner + f"</{n.tag}>")) + (n.tail or "")
+
+
 DOCX_SPECIAL = {"tab": "tab-break", "br": "tab-break", "cr": "tab-break", "tab-run": "tab-break", "pict-textbox": "vml-textbox",
                 "moveFrom": "tracked-move", "ac-textbox": "textbox-paragraphs"}
 
 
 def check_docx_paragraph():
     DX = _mod("ms_modern.docx_extractor")
+    f = _resolve(DX, "_extract_paragraph_content", 2, ['"".join('])
+    run = (lambda p: f(to_et(p), True)) if f else (lambda p: docx_api(p))
     r = Result()
     for name, p in TR.gen_docx_paragraphs():
         sp = {DOCX_SPECIAL[x] for x in name.split("+") if x in DOCX_SPECIAL}
         if len(sp) > 1:
             continue
         case = next(iter(sp)) if sp else "plain"
-        out = DX._extract_paragraph_content(to_et(p), True)
+        out = run(p)
         ok, w = _cmp("docx_extractor._extract_paragraph_content", p.brief(), out, TR.docx_par(p), {"xml": p.xml()})
         r.add(case, ok, w)
     return r
@@ -96,9 +150,10 @@ def check_docx_paragraph():
 
 def check_docx_table():
     DX = _mod("ms_modern.docx_extractor")
+    f = _resolve(DX, "_extract_table_text", 2, ["W_TR", "W_TC"])
     r = Result()
     for kind, t in TR.gen_docx_tables():
-        out = "\n".join(DX._extract_table_text(to_et(t), True))
+        out = "\n".join(f(to_et(t), True)) if f else docx_api(t)
         ok, w = _cmp("docx_extractor._extract_table_text", t.brief(), out, "\n".join(TR.docx_table(t)), {"xml": t.xml()})
         r.add(kind, ok, w)
     return r
@@ -106,9 +161,10 @@ def check_docx_table():
 
 def check_docx_body():
     DX = _mod("ms_modern.docx_extractor")
+    f = _resolve(DX, "_extract_full_text_from_body", 2, ["W_TBL", "W_SDT"])
     r = Result()
     for kind, b in TR.gen_docx_bodies():
-        out = DX._extract_full_text_from_body(to_et(b), True)
+        out = f(to_et(b), True) if f else docx_api(*b.children)
         ok, w = _cmp("docx_extractor._extract_full_text_from_body", b.brief(), out, TR.docx_body(b), {"xml": b.xml()})
         r.add(kind.split(":")[0], ok, w)
     return r
@@ -137,20 +193,34 @@ def _singles_then_pairs(gen, run, spec, target):
 
 def check_odt_body():
     OD = _mod("open_office.odt_extractor")
-    return _singles_then_pairs(TR.gen_odt_bodies(), lambda d: OD._extract_full_text(to_et(d)), TR.odt_body,
+    f = getattr(OD, "_extract_full_text", None)
+    run = (lambda d: f(to_et(d))) if f else (lambda d: odf_api(d, "open_office.odt_extractor", "read_odt", "application/vnd.oasis.opendocument.text", "odt"))
+    return _singles_then_pairs(TR.gen_odt_bodies(), run, TR.odt_body,
                                "odt_extractor._extract_full_text")
 
 
 def check_odg_text():
     OG = _mod("open_office.odg_extractor")
-    return _singles_then_pairs(TR.gen_odg_roots(), lambda d: OG._extract_full_text(to_et(d)), TR.odg_text, "odg_extractor._extract_full_text")
+    f = getattr(OG, "_extract_full_text", None)
+    run = (lambda d: f(to_et(d))) if f else (lambda d: odf_api(d, "open_office.odg_extractor", "read_odg", "application/vnd.oasis.opendocument.graphics", "odg"))
+    return _singles_then_pairs(TR.gen_odg_roots(), run, TR.odg_text, "odg_extractor._extract_full_text")
 
 
 def check_pptx_paragraphs():
     PX = _mod("ms_modern.pptx_extractor")
+    f = _resolve(PX, "_extract_text_from_paragraphs", 1, ["A_P", "A_BR"])
+
+    def api(tx):
+        from replay import c02_docs
+        from xml.etree import ElementTree as ET
+        P = "{http://schemas.openxmlformats.org/presentationml/2006/main}"
+        body = ET.tostring(to_et(N(P + "txBody", *tx.children)), encoding="unicode")
+        slide = (f'<?xml version="1.0"?><p:sld {c02_docs.PPTX_XMLNS}><p:cSld><p:spTree><p:nvGrpSpPr><p:cNvPr id="1" name=""/><p:cNvGrpSpPr/><p:nvPr/></p:nvGrpSpPr><p:grpSpPr/>'
+                 '<p:sp><p:nvSpPr><p:cNvPr id="2" name="s"/><p:cNvSpPr/><p:nvPr/></p:nvSpPr><p:spPr/>' + body + "</p:sp></p:spTree></p:cSld></p:sld>")
+        return _full_text("ms_modern.pptx_extractor", "read_pptx", c02_docs.pptx_from_slide_xml(slide), "pptx")
     r = Result()
     for tx in TR.gen_pptx_bodies():
-        ok, w = _cmp("pptx_extractor._extract_text_from_paragraphs", tx.brief(), PX._extract_text_from_paragraphs(to_et(tx)), TR.pptx_body_text(tx))
+        ok, w = _cmp("pptx_extractor._extract_text_from_paragraphs", tx.brief(), f(to_et(tx)) if f else api(tx), TR.pptx_body_text(tx))
         r.add("paragraphs", ok, w)
     return r
 
@@ -199,10 +269,15 @@ def check_epub_source():
 
 def check_odp_slide():
     OP = _mod("open_office.odp_extractor")
+    f = _resolve(OP, "_extract_slide", 4, ["body_text", "other_text"])
     r = Result()
     for case, page in TR.gen_odp_pages():
-        slide, _n = OP._extract_slide(None, to_et(page), 1)
-        out, want = slide.text_combined, TR.odp_page_tokens(page)
+        if f:
+            slide, _n = f(None, to_et(page), 1)
+            out = slide.text_combined
+        else:
+            out = odf_api(N(TR.q("office", "presentation"), page), "open_office.odp_extractor", "read_odp", "application/vnd.oasis.opendocument.presentation", "odp")
+        want = TR.odp_page_tokens(page)
         got = sorted(TR.tokens(out))
         ok = got == want
         w = None
@@ -215,7 +290,12 @@ def check_odp_slide():
 
 def check_html_body():
     H = _mod("html_extractor")
-    return _singles_then_pairs(TR.gen_html_bodies(), lambda d: H._HtmlTextExtractor(to_hdict(N("root", d))).extract(),
+    cls = getattr(H, "_HtmlTextExtractor", None)
+    if cls is not None and hasattr(cls, "extract"):
+        run = lambda d: cls(to_hdict(N("root", d))).extract()
+    else:           # through the parser and the public reader
+        run = lambda d: _full_text("html_extractor", "read_html", io.BytesIO(("<html>" + html_source_of(d) + "</html>").encode("utf-8")), "html")
+    return _singles_then_pairs(TR.gen_html_bodies(), run,
                                TR.html_text, "html_extractor._HtmlTextExtractor.extract")
 
 
@@ -261,11 +341,17 @@ def _ods_table(grid, row_repeat=None, cell_repeat=None):
 
 def check_ods_sheet():
     ODS = _mod("open_office.ods_extractor")
+    f = _resolve(ODS, "_extract_sheet", 4, ["number-rows-repeated", "raw_rows"]) or _resolve(ODS, "_extract_sheet", 4, ["_ATTR_TABLE_REPEAT_ROWS"])
+
+    def sheet_text(t):
+        if f:
+            return f(None, to_et(t), 1, 0)[0].text
+        full = odf_api(N(TR.q("office", "spreadsheet"), t), "open_office.ods_extractor", "read_ods", "application/vnd.oasis.opendocument.spreadsheet", "ods")
+        return full.split("\n", 1)[1] if "\n" in full else ""          # first line: the sheet name (documented decoration)
     r = Result()
     for grid in TR.gen_grids(3, 3):
         t = _ods_table(grid)
-        sheet, _ = ODS._extract_sheet(None, to_et(t), 1, 0)
-        ok, w = _cmp("ods_extractor._extract_sheet(...).text", t.brief(), sheet.text, TR.sheet_text(grid))
+        ok, w = _cmp("ods_extractor._extract_sheet(...).text", t.brief(), sheet_text(t), TR.sheet_text(grid))
         r.add("grid", ok, w)
     # repeated rows / cells: the repeated content is source content the same number of times
     tk = Tok()
@@ -273,19 +359,21 @@ def check_ods_sheet():
         a, b, c = tk.v(), tk.v(), tk.v()
         grid = [[a, b], [c]]
         t = _ods_table(grid, row_repeat={1: rep}, cell_repeat={(0, 1): rep})
-        sheet, _ = ODS._extract_sheet(None, to_et(t), 1, 0)
         spec = TR.sheet_text([[a] + [b] * rep] + [[c]] * rep)
-        ok, w = _cmp("ods_extractor._extract_sheet(...).text", t.brief(), sheet.text, spec)
+        ok, w = _cmp("ods_extractor._extract_sheet(...).text", t.brief(), sheet_text(t), spec)
         r.add("repeats", ok, w)
     return r
 
 
 def check_xlsx_format():
     XL = _mod("ms_modern.xlsx_extractor")
+    f = _resolve(XL, "_format_sheet_as_text", 1, ["rjust"])
+    if f is None:
+        raise Unresolved("xlsx_extractor._format_sheet_as_text")
     r = Result()
     for grid in TR.gen_grids(3, 3):
         rows = [[(c if c != "" else None) for c in row] for row in grid]
-        out = XL._format_sheet_as_text(rows)
+        out = f(rows)
         ok, w = _cmp("xlsx_extractor._format_sheet_as_text", repr(rows), out, TR.sheet_text(grid))
         r.add("grid", ok, w)
     return r
@@ -293,11 +381,14 @@ def check_xlsx_format():
 
 def check_xls_format():
     XL = _mod("ms_legacy.xls_extractor")
+    f = _resolve(XL, "_format_sheet_as_text", 2, ["rjust"])
+    if f is None:
+        raise Unresolved("xls_extractor._format_sheet_as_text")
     r = Result()
     for grid in TR.gen_grids(3, 3, ragged=False):
         if not grid:
             continue
-        out = XL._format_sheet_as_text(list(grid[0]), [list(x) for x in grid[1:]])
+        out = f(list(grid[0]), [list(x) for x in grid[1:]])
         ok, w = _cmp("xls_extractor._format_sheet_as_text", repr(grid), out, TR.sheet_text(grid))
         r.add("grid", ok, w)
     return r
@@ -347,6 +438,8 @@ def run_checks(names=None):
             continue
         try:
             out[k] = fn().cases
+        except Unresolved as e:
+            out[k] = {"<unresolved>": {"checked": 0, "failures": 0, "witness": None, "error": f"function not found: {e}"}}
         except Exception as e:  # noqa
             import traceback
             out[k] = {"<error>": {"checked": 0, "failures": 0, "witness": None, "error": traceback.format_exc()[-1500:]}}
@@ -357,7 +450,7 @@ def run_checks(names=None):
 # find / rerun
 # ============================================================================================
 # html constructs without a recorded finding (a failure there is a new defect of the node walk)
-HTML_SOUND_CASES = ["p", "inline", "spans", "p-br", "list", "nested-list", "hr", "table", "table-sections", "table-tail", "dl", "pre", "combinations"]
+HTML_SOUND_CASES = ["p", "inline", "spans", "p-br", "list", "nested-list", "list-item-tails", "hr", "table", "table-sections", "table-tail", "dl", "pre", "combinations"]
 
 FUNC_OF_CHECK = {
     "docx.table": "docx_extractor.py::_extract_table_text", "odt.body": "odt_extractor.py::_extract_full_text",
